@@ -43,7 +43,7 @@ def handleC12 (j : Json) : Except String Verdict := do
     let s := (content da (d + 1) a).isEmpty
     pure { agree := m == impl, spec := s == impl, model := Json.bool m,
            tags := resTag ++ (if s then ["empty"] else ["nonempty"]) }
-  | "count" =>
+  | "count" | "tcount" =>
     let impl ← fNat j "impl"
     let m := countValues da (d + 1) a
     let s := (content da (d + 1) a).length
